@@ -22,7 +22,8 @@ RULE_TEXT = ("C01-T: for every witness interface (hand-designed families + VERIF
              "node = the node the header parser returned."
              " C01-PR: the contracts of the parser combinators the skeleton builds on are read from their bodies - satisfy (accept first byte iff pred / soft error / Incomplete on empty), take_while (never fails; longest prefix, position() form or counting-loop form), optional (never fails; Some(value) or input untouched), tag(b) = satisfy(== b)."
              " C01-H: parse resolves the header of a unit once, with its own (root, path) arguments (no retry from the root)."
-             " C01-F: parse skips a unit (`no call`) only for an empty message.")
+             " C01-F: parse skips a unit (`no call`) only for an empty message."
+             " C01-C09Q: every error handed to the queue is stored - none dropped or merged with its predecessor (the push rule of C09).")
 
 CHILD = "microscpi::tree::Node::child"
 EXECUTE = "microscpi::interface::Interface::execute"
